@@ -1011,3 +1011,48 @@ func (c *Ctx) dependsOnField(v ssa.Value, f *types.Var, depth int, seen map[ssa.
 	}
 	return false
 }
+
+// REDUCE-ONCE (C05, C09, C07): one call of the parser's reduce method performs one reduction.
+func ruleREDUCEONCE(c *Ctx, r *Report) {
+	const rule = "REDUCE-ONCE"
+	r.doc(rule, "in the parser's reduce method every path on which reduce.Reduce has reported a successful reduction returns — it does not go round the loop again: how far the stack is reduced before the next token is looked at is decided by the parse loop through the shift predicate (REDUCE-SITES), one reduction at a time; a second reduction in the same call is made without consulting the lookahead, so `NOT (a)^2` and `NOT a^2` group differently")
+	pr := c.parserPreamble(r, rule)
+	if pr == nil || pr.ReduceM == nil {
+		return
+	}
+	reduceFn := c.pkgFunc(pkgReduce, "Reduce")
+	paths, complete := c.enumPaths(pr.ReduceM, 5000)
+	if !complete {
+		r.bad(rule, "paths", c.pos(pr.ReduceM.Pos()), "too many paths")
+		return
+	}
+	n := 0
+	for _, p := range paths {
+		succeeded := false
+		for _, a := range p.Atoms {
+			if a.Kind != "bool" || !a.Pos {
+				continue
+			}
+			if ex, ok := c.resolve(a.Src, p.Env).(*ssa.Extract); ok {
+				if call, ok := ex.Tuple.(*ssa.Call); ok && call.Call.StaticCallee() == reduceFn && ex.Index == 2 {
+					succeeded = true
+				}
+			}
+		}
+		if !succeeded {
+			continue
+		}
+		n++
+		key := fnName(pr.ReduceM) + "|after-success"
+		if p.Ret != nil {
+			r.ok(rule, key, c.instrPos(p.Ret), "returns after the reduction")
+		} else {
+			pos := c.pos(pr.ReduceM.Pos())
+			if p.CutTo != nil && len(p.CutTo.Instrs) > 0 {
+				pos = c.instrPos(p.CutTo.Instrs[0])
+			}
+			r.bad(rule, key+"|continues", pos, fnName(pr.ReduceM)+" goes round its loop again after a successful reduction: the next reduction is made without the parse loop having asked the shift predicate about the lookahead token, so operators that bind tighter than the pending one (a ^ or ~ after a closed group under NOT, + or -) are applied to the wrong operand")
+		}
+	}
+	r.floor(rule, "paths through a successful reduction", n, 1)
+}
